@@ -1,6 +1,7 @@
 """Property -> units / harnesses / stated assumptions.  Units are /verif/units/<name>.vrs."""
 
 UNIT_NOTES = {
+    "engine": "L5 control skeletons of engine/engine.rs (SharedData sequential, closures -> guarded mutation sites N10): require_no_waiting_txes, validate_next_tx (closure inlined), commit_to_db, reorg, clear_caches, mine_blocks, add_raw_tx_to_block",
     "payload": "C15/C09/C05 api/types.rs: decode_bytes_from_inscription_data, decode_zstd_into_bytes, Base64Bytes::value, RawBytes::value, select_bytes + encoding-independence lemma",
     "configdb": "C20 global/database.rs: ConfigDatabase::{get,set,flush,validate} over the DB shim and validate_config_database with the file system as uninterpreted predicates",
     "auth": "C12 server/auth.rs: validate_call / validate_notification / HttpNonBlockingAuth::{allow,new,validate} + per-method obligations generated from api.rs on every run",
